@@ -345,6 +345,7 @@ pub fn state_of_program(prog: &Program) -> Option<GenState> {
             }
         }
         (2, _, Some(true)) => ParamForm::TwoSecondSkipped,
+        (2, _, _) if def.params[0].name == "S" => ParamForm::BitsSO,
         (2, _, _) => ParamForm::Two,
         _ => return None,
     };
